@@ -35,6 +35,10 @@ CHECKS = {
          "explicit-state, deviation-bounded search over operation histories and reader answers on the real StreamLexer with a lock-step reference cursor and a ledger of returned slices",
          "For each case (data, initial buffer size incl. 0 and default, reader ending with EOF or failing at offset f, start state initial or after 1-4 canonical token-loop iterations) a BFS explores every contract-respecting history up to the depth bound; each Read call of the environment is a choice point (fill, zero-length, 1, 2, all-but-one, error/EOF together with the last bytes) within a deviation bound; states are de-duplicated on a reflective key of the private state. After every step all results are compared with a cursor over the completely read input, Err() against the three clauses, ShiftLen against shifted+skipped, and every unfreed slice returned by Shift/Lexeme against its bytes. Periodic streams check that held capacity does not grow between 128 and 256 tokens.",
          "Bounds: depth 7 (quick) / 9 (thorough) operations beyond the start state, <=2/3 reader deviations, data <=10 bytes. Known finding: Lexeme() slices of the unfinished token are not preserved across a refill (see known_findings.txt)."),
+ "C16": ("exploration",
+         "bounded-exhaustive enumeration of argument strings per helper against independent reference definitions (regexp, net/url, encoding/base64, mime, bytes, a plain map built from the hash constants in the current source)",
+         "Every string up to the bound over an alphabet built around each helper's syntax boundaries (and all 256 byte values for the byte-indexed tables) is fed to Number, Dimension, EncodeURL (both tables, three capacities), DecodeURL, DataURI (generated URIs with exact expected payload/type, and arbitrary fragment soups), Mediatype (fragment soups and every spacing of up to 2-3 distinct parameters), EqualFold, ToLower, TrimWhitespace, IsAllWhitespace, IsWhitespace, IsNewline and css/html ToHash (every constant, case variants, all single-edit neighbours, all short strings over the tables' letters); results must equal the reference; arguments must not be modified; any panic is a violation.",
+         "Bounds in the evidence rule (e.g. Number: all 10^8 strings of <=8 over 10 bytes). Mediatype is compared with mime.ParseMediaType only on inputs matching type/subtype(;key=value)* with optional blanks, because mime is more lenient than 'well-formed'."),
  "C19": ("model_checking",
          "exhaustive enumeration of write histories x byte order x backend/environment behaviour x truncation, and of all (position, offset, whence) / (position, length) pairs, against encoding/binary, bytes.Reader and the io contracts",
          "Every history of <=3 typed writes over 27 op/value pairs (both byte orders) is compared with encoding/binary and read back on 15 backends or environment behaviours (memory, Bytes() reader, ReadSeeker incl. 1-byte chunks and EOF-with-data, ReaderAt with nil/EOF on exact fit, plain readers, *os.File, mmap) with the data truncated at every byte: values, Pos, Len, Err before/after the first over-run, stability of returned byte strings. Seek from every position x every offset x whence 0..3 and Read/ReadAt for every (pos,len) on L<=6 bytes are compared with bytes.Reader and the io.Reader/io.ReaderAt clauses; all bit strings <=17 bits and all buffers <=2 bytes go through the bitmap types.",
